@@ -9,6 +9,9 @@ package lockh
 import (
 	"context"
 	"fmt"
+	iofs "io/fs"
+	"os"
+	"syscall"
 	"path/filepath"
 	"strings"
 	"sync"
@@ -56,6 +59,9 @@ type Incarnation struct {
 	Newest   time.Time // newest heartbeat/dir stamp
 	Removed  bool
 	RemovedBy string
+	// EndKind tells how the incarnation ended: "owner" (removed by its creator), "foreign-stale" (removed by somebody else
+	// while stale or while its owner was dead), "foreign-owner-releasing", "foreign-judged" (removed live by somebody else).
+	EndKind string
 }
 
 // ForeignRemove is a removal of the lock directory by somebody who is not its creator.
@@ -89,6 +95,9 @@ type World struct {
 	cur       *Incarnation
 	curCall   map[string]string // actor → API call in progress
 	incAtCall map[string]int    // actor → incarnation id current when its call started
+	rmTries   map[string]int    // actor → removals of the lock directory attempted in its current decision window
+	winStart  map[string]time.Time
+	dirEvents []DirEvent
 	releasing map[string]bool   // actor has begun a release of its own hold
 	holding   map[string]bool   // actor's acquire returned success and it has not begun release
 	dead      map[string]bool   // actor's context was cancelled (heartbeat not running any more)
@@ -111,6 +120,79 @@ type World struct {
 	StampLog []Stamp
 }
 
+// DirEvent is one state change of the lock directory (used to decide whether "stale" was a legitimate reading).
+type DirEvent struct {
+	At   time.Time
+	Inc  int
+	Kind string // stamp | create | remove
+	Path string
+	T    time.Time // stamp value
+}
+
+// staleReadable reports whether, at some instant in [from, to], the on-disk state of incarnation inc satisfied the
+// library's staleness predicate (heartbeat files present: all older than the threshold; none: the directory older).
+func (w *World) staleReadable(inc int, from, to time.Time) bool {
+	files := map[string]time.Time{}
+	var dir time.Time
+	pred := func(at time.Time) bool {
+		if at.Before(from) || at.After(to) {
+			return false
+		}
+		if len(files) == 0 {
+			return !dir.IsZero() && at.Sub(dir).Milliseconds() > StaleAfter.Milliseconds()
+		}
+		for _, m := range files {
+			if at.Sub(m).Milliseconds() <= StaleAfter.Milliseconds() {
+				return false
+			}
+		}
+		return true
+	}
+	for _, ev := range w.dirEvents {
+		if ev.Inc != inc {
+			continue
+		}
+		if ev.At.After(to) {
+			break
+		}
+		// the state before this event lasted until ev.At: ages only grow, so test at the end of that stretch
+		if pred(ev.At) {
+			return true
+		}
+		switch ev.Kind {
+		case "create":
+			if _, ok := files[ev.Path]; !ok {
+				files[ev.Path] = ev.At
+			}
+		case "remove":
+			delete(files, ev.Path)
+		case "stamp":
+			if w.isLockPath(ev.Path) {
+				dir = ev.T
+			} else if _, ok := files[ev.Path]; ok {
+				files[ev.Path] = ev.T
+			}
+		}
+	}
+	return pred(to)
+}
+
+// StaleReadableDuring reports whether some incarnation of the lock directory could legitimately be read as stale at
+// some instant of [from, to] (by the state-based predicate, i.e. ignoring the non-atomicity of the library's reading).
+func (w *World) StaleReadableDuring(from, to time.Time) bool {
+	w.mu.Lock()
+	defer w.mu.Unlock()
+	for _, inc := range w.Incs {
+		if inc.BirthT.After(to) {
+			continue
+		}
+		if w.staleReadable(inc.ID, from, to) {
+			return true
+		}
+	}
+	return false
+}
+
 // Stamp is one modification-time stamp applied to the lock directory or a file inside it.
 type Stamp struct {
 	Seq      int64     `json:"seq"`
@@ -129,7 +211,7 @@ var ErrInjected = fmt.Errorf("verif: injected I/O error")
 // Fault describes one injected fault on an actor's K-th backend operation (counted from FaultAt).
 type Fault struct {
 	K    int
-	Kind string // "err-before" (op not executed), "err-after" (op executed, error returned), "short-write" (half of the bytes written, no error)
+	Kind string // "err-before" (op not executed), "enoent-before" (op not executed, ENOENT returned), "err-after" (op executed, error returned), "short-write" (half of the bytes written, no error)
 }
 
 // FaultAt arms a fault for the actor (operation counting restarts at 0).
@@ -177,6 +259,9 @@ func (w *World) before(e *fsmon.Event) {
 		switch f.Kind {
 		case "err-before":
 			e.Inject = ErrInjected
+		case "enoent-before":
+			// the operation is not executed and reports "no such file or directory" (e.g. a network filesystem losing sight of an entry)
+			e.Inject = &iofs.PathError{Op: strings.ToLower(e.Op), Path: e.Path, Err: syscall.ENOENT}
 		case "err-after":
 			e.FailAfter = ErrInjected
 		case "short-write":
@@ -210,7 +295,7 @@ func (w *World) maybeStop(e *fsmon.Event) {
 // NewWorld creates the world. dir must exist (real OS directory, fresh per case).
 func NewWorld(dir, lockID string, s *sched.Sched) *World {
 	w := &World{Dir: dir, LockID: lockID, Base: filesystem.NewExtendedOsFs(), Mon: fsmon.NewMonitor(false), S: s,
-		curCall: map[string]string{}, incAtCall: map[string]int{}, releasing: map[string]bool{}, holding: map[string]bool{},
+		curCall: map[string]string{}, incAtCall: map[string]int{}, rmTries: map[string]int{}, winStart: map[string]time.Time{}, releasing: map[string]bool{}, holding: map[string]bool{},
 		dead: map[string]bool{}, wasHolder: map[string]bool{},
 		opCount: map[string]int{}, stopAfter: map[string]int{}, stopped: map[string]bool{}, onStop: map[string]func(){},
 		faults: map[string]Fault{}, FaultHit: map[string]string{}}
@@ -251,6 +336,7 @@ func (w *World) onStamp(path string, t time.Time, explicit bool, e *fsmon.Event)
 			w.cur.Newest = t
 		}
 		w.StampLog = append(w.StampLog, Stamp{Seq: e.Seq, Path: path, T: t, Explicit: explicit, Actor: e.Actor, Inc: w.cur.ID})
+		w.dirEvents = append(w.dirEvents, DirEvent{At: time.Now(), Inc: w.cur.ID, Kind: "stamp", Path: filepath.Clean(path), T: t})
 	}
 }
 
@@ -265,6 +351,25 @@ func (w *World) after(e *fsmon.Event) {
 		} else {
 			w.incAtCall[e.Actor] = 0
 		}
+		w.rmTries[e.Actor] = 0
+		w.winStart[e.Actor] = time.Now()
+		w.mu.Unlock()
+	}
+	if e.Effective && w.inLockDir(e.Path) {
+		w.mu.Lock()
+		if w.cur != nil {
+			switch {
+			case e.Op == fsmon.OpCreate || (e.Op == fsmon.OpOpenFile && e.Flag&os.O_CREATE != 0):
+				w.dirEvents = append(w.dirEvents, DirEvent{At: time.Now(), Inc: w.cur.ID, Kind: "create", Path: filepath.Clean(e.Path)})
+			case e.Op == fsmon.OpRemove || e.Op == fsmon.OpRemoveAll:
+				w.dirEvents = append(w.dirEvents, DirEvent{At: time.Now(), Inc: w.cur.ID, Kind: "remove", Path: filepath.Clean(e.Path)})
+			}
+		}
+		w.mu.Unlock()
+	}
+	if (e.Op == fsmon.OpRemove || e.Op == fsmon.OpRemoveAll) && w.isLockPath(e.Path) {
+		w.mu.Lock()
+		w.rmTries[e.Actor]++
 		w.mu.Unlock()
 	}
 	if e.Effective {
@@ -282,6 +387,9 @@ func (w *World) after(e *fsmon.Event) {
 			if inc := w.cur; inc != nil {
 				inc.Removed = true
 				inc.RemovedBy = e.Actor
+				if inc.Owner == e.Actor {
+					inc.EndKind = "owner"
+				}
 				if inc.Owner != e.Actor {
 					age := time.Since(inc.Newest)
 					fr := ForeignRemove{Seq: e.Seq, Remover: e.Actor, RemoverCall: w.curCall[e.Actor], Owner: inc.Owner, Inc: inc.ID,
@@ -297,13 +405,37 @@ func (w *World) after(e *fsmon.Event) {
 						fr.OwnerState = "acquiring-or-failed"
 					}
 					stale := age.Milliseconds() > StaleAfter.Milliseconds()
+					switch {
+					case stale || fr.OwnerState == "dead":
+						inc.EndKind = "foreign-stale"
+					case fr.OwnerState == "releasing":
+						inc.EndKind = "foreign-owner-releasing"
+					default:
+						inc.EndKind = "foreign-judged"
+					}
 					if !stale && fr.OwnerState != "dead" && fr.OwnerState != "releasing" {
 						fr.Judged = true
 						createdDuring := fr.IncAtCall != inc.ID
+						// how did the incarnation the remover had looked at end? The check-then-act take-over race is only the
+						// explanation if that incarnation really was a stale/dead lock that somebody legitimately took over.
+						lookedAtEnd := ""
+						lookedAtStale := false
+						if fr.IncAtCall >= 1 && fr.IncAtCall <= len(w.Incs) {
+							la := w.Incs[fr.IncAtCall-1]
+							lookedAtEnd = la.EndKind
+							// stamps of an incarnation stop when it ends (or when its holder begins to release): if its newest stamp is
+							// older than the threshold now, "stale" may have been a legitimate reading of it at decision time
+							_ = la.Newest
+							// was "stale" a legitimate reading of the incarnation the remover had looked at, at some instant of its decision window?
+							lookedAtStale = w.staleReadable(la.ID, w.winStart[e.Actor], time.Now())
+						}
 						switch {
 						case createdDuring && strings.HasPrefix(fr.RemoverCall, "Unlock") && w.wasHolder[e.Actor]:
 							fr.Class = "unlock-retry-removes-successor"
-						case createdDuring:
+						case createdDuring && w.rmTries[e.Actor] >= 2:
+							// not the first removal attempt of this Unlock (possibly reached through ReleaseIfStale / override): its retry loop
+							fr.Class = "unlock-retry-removes-successor"
+						case createdDuring && (lookedAtEnd == "foreign-stale" || lookedAtStale):
 							fr.Class = "stale-takeover-toctou"
 						default:
 							fr.Class = "foreign-remove-of-live-lock"
@@ -347,6 +479,8 @@ func (w *World) ms() int64 { return time.Since(w.Start).Milliseconds() }
 func (w *World) Call(actor, op, kind string, f func() (string, error)) error {
 	w.mu.Lock()
 	w.curCall[actor] = op
+	w.rmTries[actor] = 0
+	w.winStart[actor] = time.Now()
 	if w.cur != nil {
 		w.incAtCall[actor] = w.cur.ID
 	} else {
